@@ -97,6 +97,28 @@ def rule_typeflow(prog, rep, tier):
                         "numeric sink `%s`, so every emitter raises TypeError for any explicit setting" % ("/".join(sorted(names)), src(tainted[0], 60), sink), loc(prog, u)))
                 else:
                     rep.holds("TYPEFLOW", inst, loc(prog, u), "environment value converted before use: %s" % src(st.value, 60))
+    # an environment read used in place at a numeric sink (e.g. Mode(line_length=environ.get(...)))
+    for m in prog.modules.values():
+        for e in ast.walk(m.tree):
+            if not _is_env_read(prog, e):
+                continue
+            p = e._parent
+            sanitised = False
+            q = p
+            while q is not None and not isinstance(q, ast.stmt):
+                if isinstance(q, ast.Call) and isinstance(q.func, ast.Name) and q.func.id in SANITISERS:
+                    sanitised = True
+                q = getattr(q, "_parent", None)
+            sink = None
+            if isinstance(p, ast.keyword) and p.arg in ("width", "line_length", "maxlen", "n"):
+                sink = "keyword %s=" % p.arg
+            elif isinstance(p, ast.Compare) and any(isinstance(o, (ast.Lt, ast.LtE, ast.Gt, ast.GtE)) for o in p.ops):
+                sink = "ordering comparison %s" % src(p, 50)
+            if sink and not sanitised:
+                n_sinks += 1
+                fn_ = enclosing_fn(e)
+                rep.violation(Finding("TYPEFLOW", fn_.qualname if fn_ else m.name, "env-str-direct:%s" % sink.split(" ")[0],
+                                      "%s is read from the environment and used unconverted at the numeric sink `%s`: a str when the variable is set" % (src(e, 60), sink), loc(prog, e)))
     if n_reads == 0:
         raise AnalysisError("TYPEFLOW: no environment read found (the line-length configuration is expected in pure_utils)")
     if n_sinks < 2:
